@@ -52,7 +52,17 @@ var c19Names = []string{
 	"z", "Z", "0", ".", "..", "a/../b", "//", "x\x00y", "é", "é",
 }
 
+// c19Errs are the error values a failing open or read returns: a plain I/O error, and the errors
+// that truncated streams produce (archive/zip, flate and HTTP bodies return io.ErrUnexpectedEOF).
+var c19Errs = []error{errSimIO, io.ErrUnexpectedEOF, io.ErrClosedPipe, fmt.Errorf("wrapped: %w", io.ErrUnexpectedEOF)}
+
 type c19Opener struct {
+	errKind  int
+	// parallel: the caller keeps names and contents in two parallel slices and finds a file's content
+	// by its position in the very list it handed to Hash1
+	parallel bool
+	pnames   []string
+	pdata    []string
 	files    map[string]string
 	openErr  map[string]bool
 	readErr  map[string]int
@@ -73,7 +83,7 @@ type c19Reader struct {
 func (r *c19Reader) Read(p []byte) (int, error) {
 	if r.failAt >= 0 && r.off >= r.failAt {
 		r.o.fired["read-error"]++
-		return 0, errSimIO
+		return 0, c19Errs[r.o.errKind%len(c19Errs)]
 	}
 	if r.off >= len(r.data) {
 		return 0, io.EOF
@@ -98,9 +108,18 @@ func (o *c19Opener) open(name string) (io.ReadCloser, error) {
 	o.opened = append(o.opened, name)
 	if o.openErr[name] {
 		o.fired["open-error"]++
-		return nil, errSimIO
+		return nil, c19Errs[o.errKind%len(c19Errs)]
 	}
 	data, ok := o.files[name]
+	if o.parallel {
+		ok = false
+		for i, n := range o.pnames {
+			if n == name && i < len(o.pdata) {
+				data, ok = o.pdata[i], true
+				break
+			}
+		}
+	}
 	if !ok {
 		return nil, fmt.Errorf("open %q: no such file in the simulated set", name)
 	}
@@ -156,6 +175,14 @@ func c19Explore(src *choice.Src) *core.Result {
 		}
 		orig := append([]string(nil), list...)
 		op := &c19Opener{files: files, fired: map[string]int{}, chunk1: src.Bool(1, 4)}
+		if src.Bool(1, 3) {
+			// a caller with parallel name/content slices: content is found by position in the list given to Hash1
+			op.parallel, op.pnames = true, list
+			for _, n := range list {
+				op.pdata = append(op.pdata, files[n])
+			}
+			res.Probes["parallel-slices-caller"]++
+		}
 		got, err := dirhash.Hash1(list, op.open)
 		res.Steps += len(op.opened)
 		if fmt.Sprint(list) != fmt.Sprint(orig) {
@@ -177,7 +204,7 @@ func c19Explore(src *choice.Src) *core.Result {
 	}
 	// 2. a delivered fault means an error and no hash
 	if !hasNewline && len(names) > 0 && res.Violation == nil {
-		op := &c19Opener{files: files, fired: map[string]int{}, openErr: map[string]bool{}, readErr: map[string]int{}, chunk1: src.Bool(1, 3)}
+		op := &c19Opener{files: files, fired: map[string]int{}, openErr: map[string]bool{}, readErr: map[string]int{}, chunk1: src.Bool(1, 3), errKind: src.Intn(len(c19Errs))}
 		for i, n := 0, src.Range(1, 2); i < n; i++ {
 			name := names[src.Intn(len(names))]
 			if src.Bool(1, 2) {
